@@ -88,11 +88,28 @@ BASES = [0.08, 0.2, 0.35, 0.5, 0.65, 0.8, 0.93]
 
 
 def concretise_roots(roots):
+    """cluster -> nearly equal values.  A cluster that mixes admissible ("in") and inadmissible real ("out") roots is placed
+    on the boundary of the condition 0 <= r <= 1, so that the admissible members have a *close* inadmissible neighbour
+    (the filters must run before the de-duplication); only two such clusters fit (at 1 and at 0)."""
+    kinds = {}
+    for r in roots:
+        kinds.setdefault(r['c'], set()).add(r['k'])
+    mixed = [c for c in sorted(kinds) if {'in', 'out'} <= kinds[c]]
+    boundary = {}
+    if mixed:
+        boundary[mixed[0]] = 1.0
+    if len(mixed) > 1:
+        boundary[mixed[1]] = 0.0
     seen = {}
     vals = []
     for r in roots:
         m = seen.get(r['c'], 0)
         seen[r['c']] = m + 1
+        if r['c'] in boundary and r['k'] != 'cx':
+            b = boundary[r['c']]
+            inward = -1 if b == 1.0 else 1
+            vals.append(b + inward * (m + 1) * 1e-9 if r['k'] == 'in' else b - inward * (m + 1) * 1e-9)
+            continue
         base = BASES[r['c'] - 1] + m * 1e-8
         if r['k'] == 'in':
             vals.append(base)
